@@ -75,6 +75,28 @@ SELFCHECK_PER_JOB = 2
 FORCED = {}          # choice name -> value, set by replay_by_choices
 
 
+def fresh_eval(module, func, arg, timeout=120):
+    """evaluate harness.<module>.<func>(arg) in a NEW interpreter (JSON in, JSON out).  Used by history harnesses whose paths run one after the other in one process: a failure that only
+    appears because of state left by earlier paths is re-tried as a self-contained history, so that the counterexample reported reproduces from a cold start"""
+    import subprocess
+    code = "import json,sys\nfrom harness import %s as M\nprint('RESULT ' + json.dumps(M.%s(json.loads(sys.argv[1]))))" % (module, func)
+    env = dict(os.environ, PYTHONPATH=PYPATH, PYTHONHASHSEED="0")
+    r = subprocess.run([sys.executable, "-c", code, json.dumps(arg)], capture_output=True, text=True, env=env, timeout=timeout, cwd=ROOT)
+    for line in r.stdout.splitlines():
+        if line.startswith("RESULT "):
+            return json.loads(line[7:])
+    raise RuntimeError("fresh_eval %s.%s failed: %s" % (module, func, r.stderr[-400:]))
+
+
+def self_contained(module, func, arg, variants):
+    """first of [arg] + variants that fails when evaluated from a cold start; returns (arg', message) or None"""
+    for cand in [arg] + list(variants):
+        m = fresh_eval(module, func, cand)
+        if m is not None:
+            return cand, m
+    return None
+
+
 def replay_by_choices(func, kwargs, choices):
     """replay of a harness whose only symbolic inputs are choices: re-run the harness function in this (fresh, unshimmed) process with every
     choice forced to the recorded value - a single concrete run of the real code.  Returns a description when the property fails again."""
